@@ -358,7 +358,18 @@ void vfps::HDF5File::addParameterToGroup(std::string groupname,
 void vfps::HDF5File::append(const ElectricField* ef, const bool fullspectrum)
 {
     if (fullspectrum) {
-        _appendData(_csrSpectrum,ef->getCSRSpectrum());
+        /* The dataset holds the first _maxn frequencies of every bunch,
+         * the source rows are ef->getNMax() long: gather them first.
+         */
+        const csrpower_t* spectrum = ef->getCSRSpectrum();
+        const size_t rowlength = ef->getNMax();
+        std::vector<csrpower_t> rows;
+        rows.reserve(_nBunches*_maxn);
+        for (size_t b=0; b<_nBunches; b++) {
+            rows.insert(rows.end(), spectrum+b*rowlength,
+                        spectrum+b*rowlength+_maxn);
+        }
+        _appendData(_csrSpectrum,rows.data());
     }
     _appendData(_csrIntensity,ef->getCSRPower());
 }
